@@ -3,6 +3,8 @@
 //!   waiter:    s (waiter starts: first take) a (after first take missed) b (after registering) c (before blocking)
 //!   completer: x (before results.insert) y (before notify)
 //!   special `late`: the pass runs only after the waiter (100 ms budget) has given up
+//!   special `handle <busy ms> <wait ms> <timeout ms>`: through the public `JoinHandle` of a real event loop: the task
+//!   takes `busy`, the caller waits `wait`, then `timeout_join(timeout)`; out `res=<…> later=<result of a following join()|->`
 //! out: `res=<Ok(v)|Err(m)|timeout|failed> prompt=<1|0>`
 use crate::rng::Rng;
 use open_coroutine_core::co_pool::CoroutinePool;
@@ -23,6 +25,10 @@ pub fn gen(r: &mut Rng, _thorough: bool) -> String {
     let outcome = if r.chance(1, 4) { "P".to_string() } else { format!("R{}", r.range(1, 99)) };
     if r.chance(1, 8) { return format!("{outcome} ; late"); }
     if r.chance(1, 10) { return format!("{outcome} ; steal"); }
+    if r.chance(1, 6) {
+        // already finished when joined (with no, little or plenty of patience), or still running
+        return if r.chance(2, 3) { format!("{outcome} ; handle 0 150 {}", *r.pick(&[0u64, 0, 1, 40])) } else { format!("{outcome} ; handle 400 0 {}", *r.pick(&[0u64, 30])) };
+    }
     let all = merges(&["s", "a", "b", "c"], &["x", "y"]);
     let m = &all[r.below(all.len() as u64) as usize];
     format!("{outcome} ; {}", m.join(" "))
@@ -84,6 +90,7 @@ pub fn exec(body: &str, emit: &mut dyn FnMut(&str)) {
     std::panic::set_hook(Box::new(|_| {}));
     let (outcome, sched) = match body.split_once(" ; ") { Some(x) => x, None => { emit("BADCASE"); return; } };
     if sched.trim() == "steal" { return exec_steal(outcome, emit); }
+    if sched.trim().starts_with("handle") { return exec_handle(outcome, sched.trim(), emit); }
     let pool: &'static mut CoroutinePool<'static> = Box::leak(Box::new(CoroutinePool::new("verif-join".into(), 128 * 1024, 0, 2, 0)));
     let o = outcome.to_string();
     let id = pool.submit_task(Some("jt".into()), move |_| { if o == "P" { panic!("boom") } else { Some(o[1..].parse().unwrap()) } }, None, None).expect("submit");
@@ -146,4 +153,32 @@ fn exec_steal(outcome: &str, emit: &mut dyn FnMut(&str)) {
     let prompt = t0.elapsed() < Duration::from_millis(150);
     let other = match b.try_take_task_result(id) { Some(Ok(Some(v))) => format!("Ok({v})"), Some(Err(m)) => format!("Err({})", m.replace(' ', "_")), Some(Ok(None)) => "Ok(none)".into(), None => "none".into() };
     emit(&format!("res={res} prompt={} ran={} stolen={} other={other}", if prompt { 1 } else { 0 }, if RAN.load(Ordering::SeqCst) { 1 } else { 0 }, if ran_by_other { 1 } else { 0 }));
+}
+
+/// the public join handle of a task on a real event loop
+fn exec_handle(outcome: &str, sched: &str, emit: &mut dyn FnMut(&str)) {
+    use open_coroutine_core::config::Config;
+    use open_coroutine_core::net::EventLoops;
+    let n: Vec<u64> = sched.split_whitespace().skip(1).filter_map(|x| x.parse().ok()).collect();
+    if n.len() != 3 { emit("BADCASE"); return; }
+    let (busy, wait, timeout) = (n[0], n[1], n[2]);
+    let mut cfg = Config::single();
+    _ = cfg.set_hook(false);
+    EventLoops::init(&cfg);
+    let o = outcome.to_string();
+    let h = EventLoops::submit_task(Some("jh".into()), move |_| {
+        std::thread::sleep(Duration::from_millis(busy));
+        if o == "P" { panic!("boom") } else { Some(o[1..].parse().unwrap()) }
+    }, None, None);
+    std::thread::sleep(Duration::from_millis(wait));
+    let show = |r: std::io::Result<Result<Option<usize>, &str>>| match r.map(|x| x.map_err(|m| m.to_string())).map_err(|e| e.kind()) {
+        Ok(Ok(Some(v))) => format!("Ok({v})"),
+        Ok(Ok(None)) => "Ok(none)".into(),
+        Ok(Err(m)) => format!("Err({})", m.replace(' ', "_")),
+        Err(std::io::ErrorKind::TimedOut) => "timeout".into(),
+        Err(_) => "failed".into(),
+    };
+    let res = show(h.timeout_join(Duration::from_millis(timeout)));
+    let later = if res == "timeout" { show(h.timeout_join(Duration::from_millis(3000))) } else { "-".into() };
+    emit(&format!("res={res} later={later}"));
 }
